@@ -58,6 +58,9 @@ def build(default_files, default_env=False, mode="yaml"):
     return p
 
 
+GEN = collections.Counter()
+
+
 def gen_assignments(rng, src, n, allow=("plain", "append", "dictitem")):
     """assignments of one source: list of (key, kind, value[, item]); each key at most once per source (a mapping has
     no defined order between 'l' and 'l+' of the same document)"""
@@ -73,7 +76,11 @@ def gen_assignments(rng, src, n, allow=("plain", "append", "dictitem")):
             out.append((key, "plain", bool(tag % 2)))
         elif typ == "list":
             r = rng.random()
-            if r < 0.45 and "append" in allow:
+            if key == "ul" and r > 0.7:
+                # the scalar member of the Union, also with values that are false in a boolean context
+                out.append((key, "plain", rng.choice([0, 0, tag])))
+                GEN["st.source.scalar_member_of_union_with_list" + (".falsy" if out[-1][2] == 0 else "")] += 1
+            elif r < 0.45 and "append" in allow:
                 out.append((key, "append", rng.choice([tag, [tag], [tag, tag + 1], []])))
             else:
                 out.append((key, "plain", rng.choice([[tag], [tag, tag + 1], []])))
@@ -389,3 +396,5 @@ def run_shard(ctx):
             del os.environ[k]
     for i, rng in ctx.cases():
         scenario(ctx, i, rng)
+    for k, v in GEN.items():
+        ctx.count(k, v)
